@@ -125,12 +125,16 @@ func zeroStarts18(l *logImg) []int {
 }
 
 // overlayCuts18: how many bytes of the new log have reached the recycled file. The whole log, and the
-// crash points at every chunk start, payload start, chunk end and block boundary, each -1/+0/+1.
-func overlayCuts18(l *logImg) []int {
+// crash points at every chunk start, payload start, chunk end and block boundary (pm1: each -1/+0/+1).
+func overlayCuts18(l *logImg, pm1 bool) []int {
 	L := len(l.Data)
 	set := map[int]bool{L: true}
+	d := 0
+	if pm1 {
+		d = 1
+	}
 	add := func(b int) {
-		for t := b - 1; t <= b+1; t++ {
+		for t := b - d; t <= b+d; t++ {
 			if t >= 0 && t <= L {
 				set[t] = true
 			}
@@ -270,9 +274,9 @@ func zeroTailImage(l *logImg, p int) io.Reader {
 }
 
 // recycled runs the new log written over every longer old log.
-func (r *run18) recycled(nl *logImg, olds []*logImg, smallOnly bool) {
+func (r *run18) recycled(nl *logImg, olds []*logImg, smallOnly bool, pm1 bool) {
 	c := r.c
-	cuts := overlayCuts18(nl)
+	cuts := overlayCuts18(nl, pm1)
 	a := newAcc()
 	defer a.flush(r)
 	for _, ol := range olds {
@@ -460,9 +464,10 @@ func check18(c *vlib.Ctx) {
 						return // reported by the first phases
 					}
 				}
-				r.recycled(nl, olds[j.nf], small)
-				if c.Thorough() {
-					r.recycled(nl, olds[3-j.nf], small)
+				pm1 := small || (c.Thorough() && len(j.sizes) <= 2)
+				r.recycled(nl, olds[j.nf], small, pm1)
+				if c.Thorough() && len(j.sizes) <= 2 {
+					r.recycled(nl, olds[3-j.nf], small, pm1)
 				}
 			})
 			notes = append(notes, fmt.Sprintf("%s: %d of %d new logs, %d images read", name, done, len(jobs), r.cases.Load()-before))
@@ -479,7 +484,8 @@ func check18(c *vlib.Ctx) {
 	c.Note("scope", fmt.Sprintf("record sizes %v; sequences of 1..2 sizes (%d)%s; writers legacy/recyclable/walsync (LogWriter: SyncRecord + wait after every record); "+
 		"cuts: all offsets for logs <= 4096 bytes, else all offsets within 40 bytes of every chunk start/payload start/chunk end/block boundary plus every %dth offset; "+
 		"zeroed tail from every offset (logs <= 4096 bytes) or every 4 KiB boundary, file extended with zeros to a page boundary; "+
-		"recycled: new log number %d over every LONGER old log number %d of 1..2 records, new log complete or cut at every chunk/block boundary -1/0/+1.",
+		"recycled: new log number %d over every LONGER old log number %d of 1..2 records (quick: same format; thorough: both formats for new logs of 1..2 records), "+
+		"new log complete or written only up to a chunk start/payload start/chunk end/block boundary (also -1/+1 when both logs are small, and in the thorough tier for new logs of 1..2 records).",
 		alpha, nDepth2, map[bool]string{true: fmt.Sprintf(" plus all %d sequences of 3 sizes from %v", len(shapes)-nDepth2, alphabet18r()), false: ""}[c.Thorough()],
 		stride, newLogNum, oldLogNum))
 }
